@@ -33,7 +33,8 @@ ASSUMPTIONS = [
     'starts at or beyond the end and returns the available bytes otherwise',
     'get_source_data_hash()/__str__ are not in the battery (the digest is patched in last by construction: C20)',
     f'library version reported to the writer is stubbed to {env.STUB_VERSION}',
-    'writers run under the strictly sequential schedule (schedule independence of the bytes is C16)',
+    'three writer runs out of five use the strictly sequential schedule, two a seeded random / PCT schedule (the final '
+    'bytes are schedule independent by C16, the order of the OS-level writes need not be)',
 ]
 
 
@@ -51,7 +52,10 @@ def writer_items(seed, tier, scratch):
     items = []
     for spec in specs:
         workloads.materialise(spec, scratch)
-        items.append({'w': 'convert', 'spec': spec, 'buf': rng.choice(workloads.BUFSIZES), 'id': len(items)})
+        # the order in which a multi-threaded writer's bytes reach the OS may depend on the schedule:
+        # two writer runs out of five are made under a seeded non-sequential schedule
+        items.append({'w': 'convert', 'spec': spec, 'buf': rng.choice(workloads.BUFSIZES), 'id': len(items),
+                      'wsched': rng.choice([None, None, None, 'random', 'pct2']), 'wseed': seed})
     # every detection mode x every buffer size on one regular SEG-Y (the in-place patch sequences)
     base = dict(route='segy', shape=[5, 6, 20], bits=4, blockshape=[4, 4, -1], fmt=1, il0=1, xl0=1, il_step=1,
                 xl_step=1, data_seed=77)
@@ -102,7 +106,11 @@ def run_writer(item):
                     c.convert_to_adv_sgz(OUT)
                 finally:
                     c.close()
-    r = env.run_sim(fn, fs, core.SeqChooser(), step_cap=10 ** 7)
+    if item.get('wsched'):
+        chooser = core.make_chooser(item['wsched'], core.stream(item.get('wseed', 0), item['id'], 'writer-schedule'), est_steps=60)
+    else:
+        chooser = core.SeqChooser()
+    r = env.run_sim(fn, fs, chooser, step_cap=10 ** 6)
     readers.clear_caches()
     if r.status != 'ok' or not fs.exists(OUT):
         return None, None
